@@ -156,7 +156,8 @@ CAPS = ['owner', 'admin', 'trusted', 'foo', 'bar', '-foo', '--foo', '-admin', '-
 HOSTILE_CAPS = [' owner', 'owner ', '\towner', 'owner\n', '\nowner', 'own er', '', ' ', '\x0bowner', 'owner\x0c', '\xa0owner',
                 'owner\r', '-owner ', ' -owner', 'a b', ',owner', '#chan, owner', 'owner,', '\\owner', '"owner"', 'ｏwner']
 HOSTMASKS = ACTORS + [OWNER, '*!*@evil.host', '*!*@bob.host', 'x!y@z', 'mal!m@mal.host', '*!*@mal.host',
-                      'a!b@c\n', '*!*@*', '?!?@?', 'x', '', 'all', 'EVE!E@EVIL.HOST', 'nick!user@ho st']
+                      'a!b@c\n', '*!*@*', '?!?@?', 'x', '', 'all', 'EVE!E@EVIL.HOST', 'nick!user@ho st',
+             'ev*!*@*', '*ve!*@*', 'm*!*@mal.host', '*l!m@*']      # pairs that share hostmasks without matching each other
 CHANS = ['#chan', '#CHAN', '#other', '#chan\n', '#chan ', 'chan', '#a,b', '&x']
 PLUGINS = ['User', 'user', 'USER', 'Admin', 'Channel', 'Misc', 'Owner', 'nosuch', '', 'Us er']
 PCOMMANDS = ['register', 'whoami', 'capability', 'hostmask', 'ping', 'no-such', 'regi_ster', 'REGISTER', 'list', 'a b', '',
